@@ -609,9 +609,9 @@ func (ff *FuncFacts) implied(v ssa.Value, pol bool, depth int) []*Atom {
 		if sc := cc.StaticCallee(); sc != nil && sc.Signature.Recv() != nil && len(cc.Args) >= 1 && IsMathType(sc.Signature.Recv().Type()) {
 			var arg ssa.Value
 			if len(cc.Args) >= 2 {
-				arg = ff.Fwd(cc.Args[1])
+				arg = zeroNorm(ff.Fwd(cc.Args[1]))
 			}
-			if at := cmpAtom(sc.Name(), ff.Fwd(cc.Args[0]), arg, x); at != nil {
+			if at := cmpAtom(sc.Name(), zeroNorm(ff.Fwd(cc.Args[0])), arg, x); at != nil {
 				if !pol {
 					at = negRel(at)
 				}
@@ -672,6 +672,36 @@ func (ff *FuncFacts) implied(v ssa.Value, pol bool, depth int) []*Atom {
 		return []*Atom{boolAtom(v, pol)}
 	}
 	return nil
+}
+
+// zeroNorm maps the zero constructors of cosmossdk.io/math to the zero marker, so that
+// x.LTE(math.ZeroInt()) and x.IsNegative()/IsZero() meet in one atom vocabulary.
+func zeroNorm(v ssa.Value) ssa.Value {
+	c, ok := v.(*ssa.Call)
+	if !ok || c.Common().IsInvoke() {
+		return v
+	}
+	sc := c.Common().StaticCallee()
+	if sc == nil {
+		return v
+	}
+	p := fnPkg(sc)
+	if p == nil || p.Path() != "cosmossdk.io/math" {
+		return v
+	}
+	switch sc.Name() {
+	case "ZeroInt", "LegacyZeroDec", "ZeroUint":
+		if len(c.Common().Args) == 0 {
+			return ZeroMarker
+		}
+	case "NewInt", "LegacyNewDec":
+		if len(c.Common().Args) == 1 {
+			if k, ok := c.Common().Args[0].(*ssa.Const); ok && k.Value != nil && k.Value.ExactString() == "0" {
+				return ZeroMarker
+			}
+		}
+	}
+	return v
 }
 
 func boolAtom(v ssa.Value, pol bool) *Atom {
